@@ -115,6 +115,16 @@ func (e *sgExpr) renderPrimary() string {
 	return e.render()
 }
 
+func (e *sgExpr) clone() *sgExpr {
+	c := *e
+	c.Sub = nil
+	for _, s := range e.Sub {
+		c.Sub = append(c.Sub, s.clone())
+	}
+	c.C = append([]int{}, e.C...)
+	return &c
+}
+
 // separators are references (one or more symbols), not arbitrary expressions
 func (e *sgExpr) renderSep() string {
 	if e.K == "seq" {
@@ -315,6 +325,17 @@ func c13Random(args []string) error {
 		nnts := 1 + r.Intn(3)
 		for i := 0; i < nnts; i++ {
 			c.Src = append(c.Src, sgNonterm{Sym: i, E: sgGen(r, 1+r.Intn(3), c.NTerms, nnts, false)})
+		}
+		if r.Intn(5) == 0 { // twin lists: the same element with different separators (and different quantifiers) in one grammar
+			el := sgGen(r, r.Intn(2), c.NTerms, nnts, false)
+			mk := func() *sgExpr {
+				sep := &sgExpr{K: "t", S: 1 + r.Intn(c.NTerms)}
+				if r.Intn(2) == 0 {
+					sep = &sgExpr{K: "seq", Sub: []*sgExpr{{K: "t", S: 1 + r.Intn(c.NTerms)}, {K: "t", S: 1 + r.Intn(c.NTerms)}}}
+				}
+				return &sgExpr{K: "list", Plus: r.Intn(2) == 0, Sub: []*sgExpr{el.clone(), sep}}
+			}
+			c.Src[len(c.Src)-1].E = &sgExpr{K: "seq", Sub: []*sgExpr{mk(), {K: "t", S: 1 + r.Intn(c.NTerms)}, mk()}}
 		}
 		c.InputNs = []int{0}
 		if nnts > 1 && r.Intn(3) == 0 {
